@@ -14,9 +14,15 @@
   * `C14_undefined_edge_iff`, `C14_undefined_edge_iff_single` — hence the outcome is `UndefinedEdge` exactly when the edge
     is not defined (`DefinedEdge`, `DefinedEdge1`: decidable conditions on the map), and then the map is unchanged.
 
+  * `C14_no_second_end_single` — the case left out by `C14_undefined_edge_iff_single`: `insert_vertex_on_edge` on a dart
+    with neither β1 nor β2 image reads the slot of the null dart's vertex identifier (`run_vertexId2_null`: identifier 0).
+    `UndefinedEdge`, nothing written, iff the vertex of the dart or slot 0 is empty — always, unless a value was
+    force-written at the null dart; with such a value the kernel never answers `UndefinedEdge`, and an `Ok` has linked the
+    spare dart to the null dart (`β0(0) = nd1`, result not well formed; `example` on `exMapZ`).
+
   Hypotheses: `WF 3 m`, the vertex storage exists (`0 < m.a.size`), the edge dart is a non-null dart of the map, the
-  earlier checks pass; for the single insertion the edge has a second end point (`β1 e ≠ 0 ∨ β2 e ≠ 0`; without one the
-  kernel reads the slot of the null dart's identifier — not characterised here).
+  earlier checks pass; `C14_undefined_edge_iff_single` is for an edge with a second end point (`β1 e ≠ 0 ∨ β2 e ≠ 0`),
+  `C14_no_second_end_single` for the other darts: together no dart is excluded.
 -/
 import Honeycomb.Props.C14c
 
@@ -429,6 +435,127 @@ theorem C14_undefined_edge_iff_single (m : Map Val) (hwf : WF 3 m) (h0 : 0 < m.a
   exact NoUE.ite (noUE_insertVertexBody1 _ _ _ _ _ _ _) (noUE_insertVertexBody2 _ _ _ _ _ _ _ _ _ _) m _
     (Prod.ext h rfl)
 
+/-! ## the single insertion on a dart WITHOUT second end point -/
+
+/-- `vertex_id_transac(NULL_DART_ID)` on a well-formed map: the orbit of the null dart is the null dart, its identifier 0 -/
+theorem run_vertexId2_null (m : Map Val) (hwf : WF 3 m) : run (vertexId2 m.n 0) m = (.ok 0, m) := by
+  have hs := hwf.toSized
+  have hok : ∀ i, i < 3 → m.okβ i 0 = true := okβ_of_lt hs hs.npos
+  have hn : ∀ i, i < 3 → m.β i 0 = 0 := fun i hi => hwf.null i hi
+  have hg : run (gen2 (X := Val) .vertex 0) m = (.ok [0, 0], m) := by
+    unfold gen2
+    simp only [Prog.bind_eq, bind, run_rB, hok 2 (by omega), hok 1 (by omega), hok 0 (by omega), if_true,
+      hn 2 (by omega), hn 1 (by omega), hn 0 (by omega)]
+    rfl
+  have hb : run (bfs (gen2 (X := Val) .vertex) (m.n + 1) [0] [0, 0] []) m = (.ok [0], m) := by
+    unfold bfs
+    simp only [Prog.bind_eq, bind]
+    rw [run_bind, hg]
+    simp only [List.foldl, bfsCheck, List.contains_cons, beq_self_eq_true, Bool.true_or, if_true, List.nil_append]
+    cases m.n <;> simp [bfs]
+  unfold vertexId2 orbitWith
+  simp only [Prog.bind_eq, bind]
+  rw [run_bind, hb]
+  rfl
+
+/-- on a dart with neither β1 nor β2 image the kernel takes the one-dart branch with `b1d1_old = NULL`: the second "end
+    point" it reads is the slot of the null dart's vertex identifier, slot 0 -/
+theorem insertVertex_reads_null (m : Map Val) (hwf : WF 3 m) (h0 : 0 < m.a.size) (e : Nat) (he0 : e ≠ 0) (he : e < m.n)
+    (nd1 nd2 : Nat) (t : Option Rat) (ht : optOutOfUnit t = false)
+    (hn1 : nd1 ≠ 0 ∧ nd1 < m.n ∧ m.isFree 3 nd1 = true) (hb1 : m.β 1 e = 0) (hb2 : m.β 2 e = 0) :
+    run (insertVertexOnEdge m.n e nd1 nd2 t) m =
+      run (withEnds (m.att 0 (cellId m .vertex e)) (m.att 0 0) fun v1 v2 =>
+        insertVertexBody1 m.n v1 v2 e 0 nd1 t) m := by
+  have hs := hwf.toSized
+  have hok : ∀ i, i < 3 → m.okβ i e = true := okβ_of_lt hs he
+  unfold insertVertexOnEdge
+  simp only [Prog.bind_eq, bind]
+  rw [if_neg (by simp [ht])]
+  simp only [run_rB, hok 2 (by omega), if_true]
+  have nf : ∀ d, d ≠ 0 → d < m.n → m.isFree 3 d = true → run (nullOrNotFreeTx d) m = (.ok false, m) := by
+    intro d d0 dlt df
+    unfold nullOrNotFreeTx
+    simp only [d0, if_false, Prog.bind_eq, bind]
+    rw [run_bind, run_isFreeTx m d (okβ_of_lt hs dlt)]; simp [df]
+  rw [run_bind, nf nd1 hn1.1 hn1.2.1 hn1.2.2]
+  simp only [Bool.false_eq_true, if_false]
+  have hid1 := cellId_idem hwf (pol := .vertex) trivial he0 he
+  have okA1 : m.okA 0 (cellId m .vertex e) = true := by
+    unfold Map.okA
+    have := hs.asz 0 h0
+    simp only [h0, decide_true, Bool.true_and, decide_eq_true_eq]
+    exact Nat.lt_of_lt_of_le hid1.2.1 this
+  have okA0 : m.okA 0 0 = true := by
+    unfold Map.okA
+    have := hs.asz 0 h0
+    simp only [h0, decide_true, Bool.true_and, decide_eq_true_eq]
+    exact Nat.lt_of_lt_of_le hs.npos this
+  rw [if_neg (by simpa using hb2)]
+  simp only [Prog.pure_eq, Prog.ret_bind, Bool.false_eq_true, if_false]
+  rw [run_rB, if_pos (hok 2 (by omega)), if_pos hb2, run_rB, if_pos (hok 1 (by omega)), run_bind,
+    (C03_vertexId2_min hwf he0 he).1]
+  simp only
+  rw [hb1, run_bind, run_vertexId2_null m hwf]
+  simp only
+  rw [run_rA, if_pos okA1, run_rA, if_pos okA0]
+
+/-- **C14, `insert_vertex_on_edge` on a dart without second end point** (`β1 e = 0 ∧ β2 e = 0`; the case left out of
+    `C14_undefined_edge_iff_single`), on a well-formed map, earlier checks passed.  The kernel reads the vertex of `e` and
+    the slot of the null dart's vertex identifier (slot 0):
+    * it answers `UndefinedEdge`, nothing written, exactly when one of the two is empty — in particular whenever no value
+      is stored at the null dart, which is the case of every map that was not force-written at slot 0;
+    * otherwise (a value IS stored at slot 0) it never answers `UndefinedEdge`, and if it answers `Ok` it has executed
+      `link::<1>(nd1, NULL)`: the null dart has the β0 image `nd1` and the result is NOT well formed.  (This needs a map
+      with a vertex value at the null dart; `C14_insertVertex_preserves_WF` excludes the shape by its hypothesis.) -/
+theorem C14_no_second_end_single (m : Map Val) (hwf : WF 3 m) (h0 : 0 < m.a.size) (e : Nat) (he0 : e ≠ 0) (he : e < m.n)
+    (nd1 nd2 : Nat) (t : Option Rat) (ht : optOutOfUnit t = false)
+    (hn1 : nd1 ≠ 0 ∧ nd1 < m.n ∧ m.isFree 3 nd1 = true) (hb1 : m.β 1 e = 0) (hb2 : m.β 2 e = 0) :
+    ((run (insertVertexOnEdge m.n e nd1 nd2 t) m).1 = .err errUndefinedEdge ↔
+      ¬ ((m.att 0 (cellId m .vertex e)).isSome = true ∧ (m.att 0 0).isSome = true)) ∧
+    (¬ ((m.att 0 (cellId m .vertex e)).isSome = true ∧ (m.att 0 0).isSome = true) →
+      run (insertVertexOnEdge m.n e nd1 nd2 t) m = (.err errUndefinedEdge, m)) ∧
+    (m.att 0 0 = none → run (insertVertexOnEdge m.n e nd1 nd2 t) m = (.err errUndefinedEdge, m)) ∧
+    (∀ m', run (insertVertexOnEdge m.n e nd1 nd2 t) m = (.ok (), m') → m'.β 0 0 = nd1 ∧ ¬ WF 3 m') := by
+  have hr := insertVertex_reads_null m hwf h0 e he0 he nd1 nd2 t ht hn1 hb1 hb2
+  have hs := hwf.toSized
+  have hund : ¬ ((m.att 0 (cellId m .vertex e)).isSome = true ∧ (m.att 0 0).isSome = true) →
+      run (insertVertexOnEdge m.n e nd1 nd2 t) m = (.err errUndefinedEdge, m) := by
+    intro hnd
+    rw [hr]
+    exact withEnds_none hnd m
+  refine ⟨⟨fun h => ?_, fun h => by rw [hund h]⟩, hund, fun hz => hund (fun hh => by rw [hz] at hh; simp at hh), ?_⟩
+  · intro ⟨ha, hc⟩
+    obtain ⟨v1, v2, _, _, e3⟩ := withEnds_some (k := fun v1 v2 => insertVertexBody1 m.n v1 v2 e 0 nd1 t) ha hc
+    rw [hr, e3] at h
+    exact noUE_insertVertexBody1 _ _ _ _ _ _ _ m _ (Prod.ext h rfl)
+  · intro m' hok
+    rw [hr] at hok
+    obtain ⟨v1, v2, _, _, hbody⟩ := withEnds_ok hok
+    unfold insertVertexBody1 at hbody
+    simp only [Prog.bind_eq, bind] at hbody
+    obtain ⟨_, ma, ha, hbody⟩ := run_bind_ok hbody
+    have hma : ma = m := by
+      simp only [whenP, ne_eq, not_true_eq_false, decide_false, Bool.false_eq_true, if_false] at ha
+      simp at ha
+      exact ha.symm
+    rw [hma] at hbody
+    obtain ⟨_, m1, hl1, hbody⟩ := run_bind_ok hbody
+    obtain ⟨_, _, _, _, hm1⟩ := oneLinkCore_ok hl1
+    obtain ⟨_, m2, hl2, hbody⟩ := run_bind_ok hbody
+    obtain ⟨_, _, _, _, hm2⟩ := oneLinkCore_ok hl2
+    obtain ⟨vnew, hv, hbody⟩ := ro_bind_ok (readOnly_vertexId2 m.n nd1) hbody
+    obtain ⟨_, m3, hw, hbody⟩ := run_bind_ok hbody
+    simp at hbody
+    have st := attrOnly_writeVtx vnew (placeVal v1 v2 t) m2
+    rw [hw] at st
+    have s1 : Sized 3 m1 := by rw [hm1]; exact (hs.setβ _ _ _).setβ _ _ _
+    have s1' : Sized 3 (m1.setβ 1 nd1 0) := s1.setβ _ _ _
+    have hn1' : m1.n = m.n := by rw [hm1]; rfl
+    have hβ : m'.β 0 0 = nd1 := by
+      rw [← hbody, st.β, hm2, s1'.β_setβ (by omega) (by simp only [Map.n_setβ]; rw [hn1']; exact hs.npos)]
+      simp
+    exact ⟨hβ, fun hwf' => hn1.1 (by rw [← hβ]; exact hwf'.null 0 (by omega))⟩
+
 /-! ## non-vacuity -/
 
 /-- `exMap` with the vertex {2, 4} undefined -/
@@ -460,5 +587,25 @@ example : run (insertVertexOnEdge exMapU.n 1 5 6 none) exMapU = (.err errUndefin
     (by decide +kernel) (by decide +kernel) (by decide +kernel)).2 (by decide +kernel)
 
 example : DefinedEdge1 exMap 1 ∧ (run (insertVertexOnEdge exMap.n 1 5 6 none) exMap).1 = .ok () := by decide +kernel
+
+/-- dart 5 of `exMap` has no second end point; no value at the null dart: `UndefinedEdge`, nothing written -/
+example : run (insertVertexOnEdge exMap.n 5 6 0 none) exMap = (.err errUndefinedEdge, exMap) :=
+  (C14_no_second_end_single exMap (by decide +kernel) (by decide) 5 (by decide) (by decide) 6 0 none rfl
+    (by decide +kernel) (by decide +kernel) (by decide +kernel)).2.2.1 (by decide +kernel)
+
+/-- `exMap` with a vertex at dart 5 and a value force-written at the null dart -/
+def exMapZ : Map Val :=
+  { exMap with
+    a := #[#[some (.pt 8 8 0), some (.pt 0 0 0), some (.pt 4 0 0), some (.pt 0 4 0), none, some (.pt 2 2 0), none],
+           Array.replicate 8 none, Array.replicate 8 none, Array.replicate 8 none,
+           Array.replicate 8 none, Array.replicate 8 none] }
+
+/-- then the kernel answers `Ok`, having linked the spare dart to the null dart: `β0(0) = 6`, not well formed -/
+example : (run (insertVertexOnEdge exMapZ.n 5 6 0 none) exMapZ).1 = .ok () ∧
+    (run (insertVertexOnEdge exMapZ.n 5 6 0 none) exMapZ).2.β 0 0 = 6 := by decide +kernel
+
+example : ¬ WF 3 (run (insertVertexOnEdge exMapZ.n 5 6 0 none) exMapZ).2 :=
+  ((C14_no_second_end_single exMapZ (by decide +kernel) (by decide) 5 (by decide) (by decide) 6 0 none rfl
+    (by decide +kernel) (by decide +kernel) (by decide +kernel)).2.2.2 _ (ok_of_fst (by decide +kernel))).2
 
 end HC.C14
